@@ -209,6 +209,10 @@ def run(ctx):
             for s_ in b.stmts(bb):
                 if 'assign' in s_ and s_['assign']['l'] == 0 and s_['rv']['k'] == 'agg' and (s_['rv'].get('adt') or '').endswith('SchemaKey'):
                     okr_ = [const_int(o_) for o_ in s_['rv']['ops']] == [0]
+        # (or through the constructor: `Self::from_idx(0)`)
+        for bb, t in b.calls():
+            if strip_generics(cname(t)).endswith('SchemaKey::from_idx') and t.get('dest', {}).get('l') == 0 and len(t['args']) == 1:
+                okr_ = const_int(t['args'][0]) == 0
     ctx.ob('KEYBOUNDS', 'root-key-is-node-zero', okr_, short_loc(rk_[0].span) if rk_ else None, 'SchemaKey::root() is SchemaKey { idx: 0 }: %s' % okr_, nontrivial=False)
 
     # ---- direct recursions
